@@ -420,6 +420,7 @@ fn eval_c13(case: &Case, tier: Tier, acc: &Acc) -> Vec<Violation> {
     }
     if kinds_seen.len() >= 3 {
         acc.distinct(&case.cfg);
+        acc.fallback(|| json!({"config": case.cfg.short(), "texts": texts.len()}));
         if acc.want_sample() && case.cfg.modes.len() > 1 {
             acc.sample(json!({"config": case.cfg.short(), "texts": texts.len(), "token_kinds_seen": kinds_seen}));
         }
@@ -574,6 +575,7 @@ fn eval_c14(case: &Case, acc: &Acc) -> Vec<Violation> {
         acc.distinct(&case.cfg);
         acc.count("successful_parses_with_tree_compared", trees);
         acc.count("texts_with_gap_tokens", gaps);
+        acc.fallback(|| json!({"config": case.cfg.short(), "texts": texts.len(), "trees_compared": trees}));
         if acc.want_sample() && gaps > 0 {
             acc.sample(json!({"config": case.cfg.short(), "texts": texts.len(), "trees_compared": trees, "texts_with_unmatched_gaps": gaps}));
         }
